@@ -12,10 +12,12 @@ CHECKS = {
             'small-scope exhaustive input enumeration: full Cartesian product of aperture family x size x axis ratio x angle '
             'x centre x method, vs. an independent polygon-disk line-integral reference / counted sub-pixel centres; '
             'all integer boxes x image shapes for the overlap logic',
-            'Every mask of the stated product (178 k masks quick, 2.35 M thorough; alphabets built from the shortcuts in the '
+            'Every mask of the stated product (~240 k masks quick, ~2.4 M thorough; alphabets built from the shortcuts in the '
             'kernels: radii through pixel corners/centres/tangent to edges, near-degenerate ellipses, half-integer centres, '
             'multiples of pi/4) is compared per pixel with an independent reference; bounding boxes are judged minimal/containing '
-            'with rational arithmetic; all 67 600 box x image-shape cases and all 194 481 box pairs are enumerated. '
+            'with rational arithmetic; all 67 600 box x image-shape cases and all 194 481 box pairs are enumerated; theta is also given '
+            'as np.float64 / Quantity[rad|deg|arcmin] / Angle (bit-identical or judged at the radian value); every parameter is '
+            're-assigned one at a time after all caches were filled and every read compared with a fresh aperture. '
             'Bounded-exhaustive over the alphabets, not over the continuum between alphabet points.',
             'Trusted: the reference geometry (self-tested against brute-force sub-sampling), numpy. Kernels are tested as compiled '
             '(.c -> .so rebuilt by gcc when stale; .pyx cannot be regenerated here).',
@@ -27,14 +29,16 @@ CHECKS = {
             'with a direct loop over image pixels; the other call forms (aperture_photometry, lists, NDData, Quantity, sky) run on a '
             'stated sub-product; linearity and blindness to masked / zero-weight pixel values are checked bit-exactly.',
             'Aperture weights are taken from the aperture\'s own mask (C01 vouches for them); this check owns registration, masks, '
-            'NaN handling and table assembly. Images up to 6x6.',
+            'NaN handling (data and error maps), table assembly and parameter re-assignment (bit-identical to a fresh aperture). Images up to 6x6.',
             'DESIGN.md section 4 C02'),
     'C03': ('exploration',
             'exhaustive product of scenes x integer offsets x pad widths x API configurations under a metamorphic (translation / '
             'transposition covariance) oracle with an explicit position-like / position-free classification of every output',
             'For 4 (quick) / 8 (thorough) asymmetric non-square scenes every offset (dx,dy) in {0,1,2,5}x{0,1,3,7} (thorough 5x5), '
             'every pad and every listed API configuration is run on the base and the embedded/transposed inputs; position-like '
-            'outputs must shift exactly, everything else must not change, for all rows whose footprint lies in the original frame.',
+            'outputs must shift exactly, everything else must not change, for all rows whose footprint lies in the original frame. '
+            'Every scene carries six pathological segments (diagonal, single pixel, one row, negative, fully masked, edge peak) so the '
+            'per-source fallback branches run; every auxiliary array (error, mask, background, threshold map) is non-constant.',
             'No reference model (metamorphic). A defect that is itself translation covariant is invisible here (C07/C16 cover those). '
             'Footprints are computed from inputs and documented radii with one pixel margin.',
             'DESIGN.md section 4 C03'),
@@ -44,7 +48,8 @@ CHECKS = {
             'All images up to 3x3 (quick) / 3x4 and binary 4x4 (thorough) over {below, ==threshold, above, NaN, +inf, masked} '
             'are labelled by the real detect_sources and compared bit-exactly with an independent union-find reference, '
             'including None/NoDetectionsWarning, pre-seeded caches vs a fresh SegmentationImage, detect_threshold and '
-            'SourceFinder(deblend=False). Exhaustive within the bound; larger frames are covered only by the listed lattice of 4x5 scenes.',
+            'SourceFinder(deblend=False); a binary 4x5 space with npixels 10 covers pruning with interleaved bounding boxes; '
+            'detect_threshold over {None, scalar, map}^2 x nsigma x mask x image dtype {f8,f4,i4,u1,>f8}. Exhaustive within the bound.',
             'Trusted: numpy comparisons. scipy.ndimage.label is not trusted (re-derived).',
             'DESIGN.md section 4 C04'),
     'C05': ('model_checking',
@@ -53,7 +58,7 @@ CHECKS = {
             'Every history of public mutators / attribute reads / data assignment / copy up to the stated depth '
             '(quick: depth 3 on the doc-example and deblended roots, depth 2 on 9 further roots, depth 1 on all 2x2 arrays over '
             '{0,1,2,5} and all 2x3 arrays over {0,1,2}; thorough: depth 3 everywhere, depth 2 on all 4096 2x3 arrays over {0,1,2,5}) '
-            'is executed on the real class; in every distinct state every derived attribute is compared with a reference model and a '
+            '(incl. assignment of arrays of a different shape) is executed on the real class; in every distinct state every derived attribute (incl. shape) is compared with a reference model and a '
             'fresh object. Bounded-exhaustive, not a proof for longer histories or larger label alphabets.',
             'Trusted: numpy, scipy.ndimage.find_objects, rasterio/shapely; state = instance __dict__ digest.',
             'DESIGN.md section 4 C05'),
@@ -62,8 +67,10 @@ CHECKS = {
             'as_completed injected into photutils.segmentation.deblend, pickle round trips) compared bit-exactly with nproc=1; '
             'conformance pass with the real spawn pool; plus full-product refinement enumeration with a set-partition oracle',
             'For every scene with N <= 4 (quick) / 5 (thorough) deblendable parents x numbering x variant x relabel x contrast x '
-            'labels x nproc every permutation of task completion is executed on the real merge code (8 952 schedules quick) and must '
-            'equal the serial result; the refinement clauses are decided on the full product of the scene lattice (77 k cases quick).',
+            'ORDERED labels= lists (ascending, descending, rotated, scalar; list/array/tuple) x nproc every permutation of task completion is '
+            'executed on the real merge code (~18 k schedules quick) and must '
+            'equal the serial result; the refinement clauses are decided on the full product of the scene lattice incl. parents with sub-npixels '
+            'spikes whose marker numbers have holes (~170 k cases quick).',
             'The stub models the executor API the code uses (asserted: anything beyond submit/context manager/as_completed/result '
             'raises ModelMismatch; the free-running real-pool pass must produce the same API trace shape). N <= 5 parents.',
             'DESIGN.md section 4 C06'),
@@ -79,17 +86,20 @@ CHECKS = {
             'complete enumeration of the history template (pre-cache set -> index -> evaluate p) over every public property x every '
             'index form x every private/public pre-cache attribute for SourceCatalog and ApertureStats, plus explicit-state BFS '
             '(explorer, __dict__-digest states) over extra-property operations on {parent, child}',
-            'cat[idx].p == cat.p[idx] for all 84 + 51 public properties, 19 index forms, pre-cache sets {none, p, everything, each '
-            'private lazy attribute} (127 k histories quick, 654 k thorough); extra-property independence by BFS to depth 4 (quick) / '
-            '5 (thorough) with a two-dict reference model (3 416 states, 387 k transitions quick).',
-            'Six catalog variants (N in {1,3,4}); values of Kron/fluxfrac are only checked to commute with indexing.',
+            'cat[idx].p == cat.p[idx] for all public properties plus 14 method-with-argument pseudo-properties, index forms = value x '
+            'container (112 executed forms, oracle = numpy applied to arange(n)), pre-cache sets {none, p, everything, each '
+            'private lazy attribute} (~260 k histories quick, ~2.2 M thorough) on seven catalog variants incl. one whose sources take every '
+            'exceptional per-source branch; extra-property independence by BFS to depth 4 (quick) / '
+            '5 (thorough) with a two-dict reference model.',
+            'Catalog variants with N in {1,3,4,6}; values of Kron/fluxfrac are only checked to commute with indexing; zero-source selections skipped.',
             'DESIGN.md section 4 C08'),
     'C09': ('model_checking',
             'explicit-state BFS over read/assignment/call histories on the real objects (Background2D, pixel apertures, profiles, '
             'PSFPhotometry/IterativePSFPhotometry, star finders, Ellipse, LocalBackground, GriddedPSFModel), __dict__-digest states, '
             'fresh-object differential oracle',
             'Every history up to the stated depth (Background2D: to the fixpoint of cache states for 192/576 configurations; apertures '
-            'depth 3/5; profiles 4/6; PSF photometry 2/3; finders to fixpoint; Ellipse depth 2) is executed; every observation must '
+            'depth 3/5; profiles 4/6; PSF photometry 2/3; finders to fixpoint; Ellipse depth 2 over 31 calls) is executed; every call alphabet '
+            'contains requests that take each exit class (normal / empty result / raises); every observation must '
             'equal what a fresh object gives for that single request, no request may raise because of earlier ones, configuration '
             'attributes must not change.',
             'A defect that breaks the single request identically on a fresh object is invisible by construction (other properties '
@@ -98,15 +108,17 @@ CHECKS = {
     'C10': ('exploration',
             'exhaustive product registry(public entry points, walked from every __all__) x argument representation x data condition '
             'with deep before/after snapshots of every caller-held object after every step (return or raise)',
-            '84 call recipes covering 104 of 146 public callables (the rest listed as uncovered in the evidence) x 7 representations x '
-            '6 data conditions; every public property / argument-less method of catalog-like objects is its own step (30 695 step '
+            '88 call recipes covering 141 of 146 public callables (5 network loaders listed as uncovered) x 7 representations x '
+            '6 data conditions x mask forms x a geometry axis (block == image, one row/column of boxes, 1xN images ...); every public property / method '
+            '(plotting and methods needing arguments with NON-default arguments, the object itself watched) is its own step (~180 k step '
             'evaluations quick); bit-exact component-wise snapshot comparison.',
             'One scene per condition; documented in-place mutators exempt; geometry helper objects are not watched.',
             'DESIGN.md section 4 C10'),
     'C11': ('exploration',
             'exhaustive structural product (shape x box x edge method x mask x coverage x exclude_percentile x interpolator) and '
             'estimator product, each with bottleneck present and blocked, vs. a plain-Python mesh reference and metamorphic relations',
-            '16 200 configurations quick / 92 664 thorough, each also built as constant / shifted / scaled / hidden-value variants; '
+            '~25 k configurations quick / ~150 k thorough (data kind finite / non-finite crossed with mask x coverage), each also built as constant / '
+            'hidden-value variants and shifted / scaled over a magnitude ladder (c up to +-2^30, k from 2^-30 to 2^20, exact dyadic transforms); '
             'mesh values, pixel counts, exclusion rule, filters, fill value, finiteness, zoom range, mask-blindness, equivariance.',
             'Images up to 9x12, boxes up to 4x5; the geometry of the interpolated full map is only checked through range and relations.',
             'DESIGN.md section 4 C11'),
@@ -129,40 +141,46 @@ CHECKS = {
             'small-scope exhaustive enumeration: every 3x3 / 2x3 (thorough 3x4) image over small value alphabets incl. negatives and '
             'NaN x footprint x border x threshold x mask x npeaks, vs. a pixel-by-pixel reference; contract oracle with bound sweeps '
             'for the three star finders on a scene lattice',
-            '519 k find_peaks cases quick / 11.75 M thorough; 2 448 / 11 088 star-finder families with every bound set exactly at and '
+            '~1.0 M find_peaks cases quick / ~14 M thorough incl. ALL threshold maps over 2 levels on 2x3 images; star-finder families incl. signed-patch mosaics '
+            '(every 3x3 patch over {-,0,+} through xycoords) and zero-mean noise scenes, with every bound set exactly at and '
             'one ulp beyond every reported value, brightest, xycoords, min_separation.',
             'DAOFIND formulas themselves are trusted (contract oracle); scenes up to 21x25 with <= 3 sources.',
             'DESIGN.md section 4 C14'),
     'C15': ('exploration',
             'exhaustive product registry(numerical entry points) x representation (dtype, byte order, layout, container, units) x '
             'condition, each step compared with the float64 baseline; mixed unit-ful/unit-less must be rejected',
-            '59 recipes x 12 representations x 2 conditions = 14 836 compared steps quick (22 020 thorough); unit oracle by '
+            '59 recipes x (dtype {f8,f4,i1..i8,u1..u8} x byte order) + layouts + containers, per-companion unit mixing (each optional argument alone '
+            'unit-less / unit-ful / in a convertible other unit), and a large-reduction family (1024x1000 image, 80 entries x 21 representations); unit oracle by '
             'dimensional analysis (scaling the data by 2).',
             'Integer-valued scene so that every representation holds the same numbers; Background2D integer rounding exempt.',
             'DESIGN.md section 4 C15'),
     'C16': ('exploration',
             'exhaustive product aperture spec x data x mask x error x sigma_clip x sum_method x local_bkg x 12 positions (interior, '
             'corner, cut by each edge, outside), vs. direct statistics of the pixel set in plain Python',
-            '40 500 (configuration, position) evaluations quick, 29 properties each; NaN (never an exception) for empty sets.',
+            '~138 k (configuration, position) evaluations quick, 29 properties each, incl. an error-condition axis (non-finite error at masked / '
+            'zero-weight / clipped / summed pixels); NaN (never an exception) for empty sets.',
             'Shape values judged with the regularisation ambiguity rule; ill-conditioned moment cases skipped by stated rules (counted).',
             'DESIGN.md section 4 C16'),
     'C17': ('exploration',
             'exhaustive enumeration of cutout shapes x symmetry centres x masks x flips/transpose/scale, exact quadratics on a '
             'sub-pixel lattice, and every ordered position list of length <= 3 (4) for centroid_sources',
-            '126 k evaluations quick; centroid_sources[k] must be bit-identical to the function called on an independently computed cutout.',
+            '~150 k evaluations quick incl. search-box cases on non-quadratic data with the guess on every pixel; centroid_sources[k] must be '
+            'bit-identical to the function called on an independently computed cutout.',
             'Gaussian-fit centroids only on well-posed (>= 4 px support) inputs with calibrated tolerances.',
             'DESIGN.md section 4 C17'),
     'C18': ('exploration',
             'exhaustive enumeration of ALL ordered tables of <= 2 (3) rows over a 9-type row alphabet x 180 model/shape/local_bkg/'
             'discretisation configurations, vs. an order-free additive reference renderer',
-            '29 350 renders quick / ~194 k thorough; order invariance and additivity are decided by the same comparison; units, input '
+            '~31 k renders quick / ~200 k thorough; order invariance and additivity are decided by the same comparison; iterative photometry over a '
+            '48-configuration product (estimator local backgrounds, >= 2 iterations, groupers); units, input '
             'unchanged, residual = data - model bit-exactly; PSFPhotometry model/residual images.',
             'integrate discretisation and bbox_factor not covered.',
             'DESIGN.md section 4 C18'),
     'C19': ('exploration',
             'exhaustive product image x centre x radii x mask x error x method vs. an independent pixel-weight reference, plus '
             'explicit-state BFS (explorer) over normalize/unnormalize/first-read histories',
-            '3 570 profiles + BFS depth 5/7 from 5 roots (188 states, 1 918 transitions quick); EE round trip on the monotone prefix.',
+            '~9.5 k profiles (mask x non-finite data/error x cover) + BFS depth 5/7 from 40 roots (class x error x units x image sign structure) incl. '
+            'calc_ee_at_radius / calc_radius_at_ee operations; EE round trip in every state.',
             'While normalised only profile/profile_error scale is demanded (the property asks that unnormalize restores).',
             'DESIGN.md section 4 C19'),
     'C20': ('exploration',
